@@ -79,8 +79,34 @@ def scaled_cases(rng, pairs):
                 k64 = c.run(bool_req("f64", op, False, BUDGET, "MM", a2, b2))
                 c.check("identical %d %d" % (k32, k64))
         cases.append(c)
-    # N4: beyond the range in which the cross products stay finite and non-zero
     sq = lambda x0, y0, x1, y1: [[[(x0, y0), (x1, y0), (x1, y1), (x0, y1), (x0, y0)]]]
+    # operands whose edges never cross (nested, apart): no intersection point is computed, only orientations,
+    # which the f32 code evaluates in f64 -- so the whole f32 exponent range must work, also with very
+    # different magnitudes in one orientation triple
+    for idx in range(max(2, len(pairs) // 4)):
+        c = Case("C10n-%d" % idx, "g1")
+        u, v = rng.randint(1, 3), rng.randint(1, 3)
+        w, h = rng.randint(1, 4), rng.randint(1, 4)
+        ring = lambda x0, y0, x1, y1: [(x0, y0), (x0, y1), (x1, y1), (x1, y0), (x0, y0)]
+        shapes = [(sq(0, 0, 8, 8), sq(u, v, u + w, v + h)),
+                  ([[sq(0, 0, 10, 10)[0][0], ring(1, 1, 9, 9)]], sq(u + 1, v + 1, u + 1 + w, v + 1 + h)),
+                  (sq(0, 0, u + 1, 7), sq(u + 2 + w, v, u + 4 + w, v + h)),
+                  (sq(0, 0, 8, 8) + sq(10, u, 12, u + h), sq(u, v, u + w, v + h) + sq(13, 0, 15, 3)),
+                  (sq(0, 0, 2 ** 160, 2 ** 160), sq(u, v, u + w, v + h)),
+                  (sq(0, 0, 2 ** 160, 2 ** 160), sq(u * 2 ** 150, v, (u + w) * 2 ** 150, v + 1))]
+        for si, (a, b) in enumerate(shapes):
+            ks = [-100] if si >= 4 else rng.sample([-120, -100, -90, -80, 70, 90, 100], 2)
+            for k in ks:
+                f = Fraction(2) ** k
+                a2 = gen.map_mpoly(a, lambda p: (p[0] * f, p[1] * f))
+                b2 = gen.map_mpoly(b, lambda p: (p[0] * f, p[1] * f))
+                for op in rng.sample(OPS, 2):
+                    k32 = c.run(bool_req("f32", op, False, BUDGET, "MM", a2, b2))
+                    k64 = c.run(bool_req("f64", op, False, BUDGET, "MM", a2, b2))
+                    c.check("identical %d %d" % (k32, k64))
+                    c.check("region %d %s" % (k32, num.enc(0)))
+        cases.append(c)
+    # N4: beyond the range in which the cross products stay finite and non-zero
     c = Case("C10s-range", "g1")
     for k in (63, -80):
         f = Fraction(2) ** k
@@ -134,11 +160,13 @@ def _rand_seg(rng, kind, prec):
 
 
 def _collinear_pair(rng, prec):
-    """two collinear overlapping lattice segments (vertical ones included)"""
+    """two collinear lattice segments (vertical ones included): overlapping, touching in one end point, or
+    apart with a gap between them"""
     d = rng.choice([(1, 0), (0, 1), (1, 1), (2, 1), (1, -1), (0, 1), (3, 2)])
     o = (rng.randint(-3, 3), rng.randint(-3, 3))
-    ts = sorted(rng.sample(range(-4, 9), 4))
-    mode = rng.choice(["nested", "chain", "sameleft", "sameright", "same", "touch"])
+    m = rng.choice([1, 1, 1, 2, 7])
+    ts = [m * t for t in sorted(rng.sample(range(-4, 9), 4))]
+    mode = rng.choice(["nested", "chain", "sameleft", "sameright", "same", "touch", "touch", "gap", "gap"])
     if mode == "nested":
         s1, s2 = (ts[0], ts[3]), (ts[1], ts[2])
     elif mode == "chain":
@@ -149,6 +177,8 @@ def _collinear_pair(rng, prec):
         s1, s2 = (ts[0], ts[3]), (ts[1], ts[3])
     elif mode == "same":
         s1, s2 = (ts[0], ts[3]), (ts[0], ts[3])
+    elif mode == "gap":
+        s1, s2 = (ts[0], ts[1]), (ts[2], ts[3])
     else:
         s1, s2 = (ts[0], ts[1]), (ts[1], ts[3])
     mk = lambda t: (o[0] + t * d[0], o[1] + t * d[1])
